@@ -89,6 +89,12 @@ def check_triple(T, M, W, obs, axis=False):
     s2 = np.asarray(call(inv.transform_non_affine, x), dtype=float)
     e = float(np.max(np.abs(s2 - s))) if s2.shape == s.shape else float('inf')
     obs.claim('inverse', e <= 1e-4 * M, lambda: 'T=%r M=%r W=%r: inverse error %r > 1e-4*M' % (T, M, W, e))
+    # data values often come as integers (raw channel numbers): the inverse takes them as it takes floats
+    xi = np.unique(np.clip(np.array([0, 1, 3, 10, 100, 1000, 30000]), None, int(max(x[-1], 0))))
+    si = call(inv.transform_non_affine, xi.astype(np.int64))
+    sf = np.asarray(inv.transform_non_affine(xi.astype(np.float64)), dtype=float)
+    obs.claim('inverse', not raised(si) and bool(np.allclose(np.asarray(si, dtype=float), sf, rtol=0, atol=1e-9 * M)),
+              lambda: 'T=%r M=%r W=%r: inverse of integer data values %r is %r, of the same values as floats %r' % (T, M, W, xi.tolist(), si, sf.tolist()))
     xs = np.linspace(x[0], x[-1], 4001)
     s3 = np.asarray(inv.transform_non_affine(xs), dtype=float)
     obs.claim('inverse_monotone', bool(np.all(np.diff(s3) >= 0)) and bool(np.all(np.diff(s2) >= 0)),
@@ -232,7 +238,7 @@ def _refuse(draw):
         M = draw(st.one_of(st.just(0.0), st.floats(-12, 0)))
     else:
         W = draw(st.floats(-5, -1e-9))
-    return dict(arm='refuse', T=T, M=M, W=W)
+    return dict(arm='refuse', T=T, M=M, W=W, with_data=draw(st.sampled_from([False, False, True])))
 
 
 def strategy(tier):
@@ -250,8 +256,9 @@ def check(case, obs):
             obs.label('axis')
         check_triple(case['T'], case['M'], case['W'], obs, axis=case.get('axis', False))
     elif arm == 'refuse':
-        t = call(FlowCal.plot._LogicleTransform, T=case['T'], M=case['M'], W=case['W'])
-        obs.claim('refuse', raised(t), lambda: 'T=%r M=%r W=%r accepted' % (case['T'], case['M'], case['W']))
+        kw = dict(data=np.array([1.0, 5.0, -3.0, 250.0])) if case.get('with_data') else {}     # invalid is invalid, data or not
+        t = call(FlowCal.plot._LogicleTransform, T=case['T'], M=case['M'], W=case['W'], **kw)
+        obs.claim('refuse', raised(t), lambda: 'T=%r M=%r W=%r accepted%s' % (case['T'], case['M'], case['W'], ' (data given)' if kw else ''))
         obs.nontrivial = True
     else:
         data = []
